@@ -23,10 +23,12 @@ RegInit == TLCSet(1, [t \in 1..NT |-> 0]) /\ TLCSet(2, {})
 Reached(t, n) ==
   LET cur == TLCGet(1) IN IF n > cur[t] THEN TLCSet(1, [cur EXCEPT ![t] = n]) ELSE TRUE
 
-Flag(t, n, name) == TLCSet(2, TLCGet(2) \cup {<<t, n, name>>})
+Flag(t, n, name, d1, d2) == TLCSet(2, TLCGet(2) \cup {<<t, n, <<name, d1, d2>>>>})
 
 \* Check(t, n, name, P): evaluates to TRUE always; records when P is false.
-Check(t, n, name, P) == IF P THEN TRUE ELSE Flag(t, n, name)
+Check(t, n, name, P) == IF P THEN TRUE ELSE Flag(t, n, name, "", "")
+\* same, with two strings saying which instance of the formula is false (e.g. which invocation)
+CheckD(t, n, name, d1, d2, P) == IF P THEN TRUE ELSE Flag(t, n, name, d1, d2)
 
 Report == PrintT(<<"VERDICT-REACHED", TLCGet(1)>>) /\ PrintT(<<"VERDICT-FLAGS", TLCGet(2)>>)
 
